@@ -1,6 +1,7 @@
 package main
 
 import (
+	"regexp"
 	"encoding/json"
 	"flag"
 	"fmt"
@@ -349,7 +350,9 @@ func cmdCheck(args []string) {
 	// expected-obligation guard (vacuity): SMT and structural obligations by exact name; provenance obligations
 	// (whose names contain source text and so change with harmless edits) by a minimum count.
 	provCount := 0
+	normNames := map[string]bool{}
 	for _, o := range res.Obls {
+		normNames[normalName(o.Name)] = true
 		if o.Backend == "provenance" || volatileName(o.Name) {
 			provCount++
 		}
@@ -365,7 +368,7 @@ func cmdCheck(args []string) {
 				}
 				continue
 			}
-			if !names[n] && !strings.Contains(n, "#auto-inv-") {
+			if !names[n] && !normNames[normalName(n)] && !strings.Contains(n, "#auto-inv-") && !volatileName(n) {
 				missing = append(missing, n)
 			}
 		}
@@ -471,7 +474,30 @@ func cmdCheck(args []string) {
 
 // volatileName: structural obligations named after a source line (their names change with harmless edits of that
 // line); they are guarded by count, not by name.
+// safetyAnchored: SMT obligations whose name quotes source text (the indexed or sliced expression). A harmless rewrite
+// of that expression renames or removes them, so they are guarded by the minimum count, not by name.
+var safetyAnchored = regexp.MustCompile(`#(index|slice|typeassert|divzero|makeslice|shift|overflow|panic|cover|vacuity|dead)@`)
+
+// normalName strips the ordinals that shift when a return statement, a back edge or a call site is added or removed
+// elsewhere in the function: ".ret3", ".from2", "~2", and the call-site ordinal of "call-requires@callee.2.label".
+var normRe = regexp.MustCompile(`(\.ret\d+|\.from\d+|~\d+)$`)
+var normSite = regexp.MustCompile(`(#call-requires@.+?)\.\d+\.`)
+
+func normalName(n string) string {
+	for {
+		m := normRe.ReplaceAllString(n, "")
+		if m == n {
+			break
+		}
+		n = m
+	}
+	return normSite.ReplaceAllString(n, "$1.")
+}
+
 func volatileName(n string) bool {
+	if safetyAnchored.MatchString(n) {
+		return true
+	}
 	for _, p := range []string{"syntax#eof-exit@", "syntax#refill-retry@", "syntax#refill-at-boundary@Parser", "syntax#bash-implies-bats@Parser", "syntax#bash-implies-bats@", "syntax#bats-only@", "syntax#recovery-only-on-error@Parser", "syntax#recovery-state@"} {
 		if strings.HasPrefix(n, p) && !strings.HasSuffix(n, "-found") {
 			return true
